@@ -661,6 +661,36 @@ def r12(F, R):
         R.bad("C08-R12", "positive-control", "fixtures/positive", "matcher failed to report the planted f64 -> f32 cast")
 
 
+def r13(F, R):
+    R.rule("C08-R13", "the diagonal adaptation is per coordinate: adapt() of the diagonal strategy does not test its variance estimates as a whole "
+                      "(array_all_finite / array_all_finite_and_nonzero) before calling the update kernels - an unusable estimate of one coordinate is handled "
+                      "inside the kernels, element by element (the previous scale stays), and must not keep every other coordinate from being adapted")
+    bs = [b for b in F.trait_method_impls("MassMatrixAdaptStrategy", "adapt") if "diagonal" in b.path]
+    if not bs:
+        R.missing("C08-R13", "impl MassMatrixAdaptStrategy::adapt for the diagonal strategy")
+    for b in bs:
+        site = "%s @%s" % (b.path, b.loc())
+        ups = [bb for bb, t in b.calls() if str(t["callee"].get("name") or "").startswith("update_diag")]
+        gates = []
+        for bb, t in b.calls():
+            if str(t["callee"].get("name") or "").startswith("array_all_finite"):
+                # does its outcome decide whether an update kernel runs?
+                dest = t["dest"]["l"]
+                for u in ups:
+                    for (a, _s) in b.control_deps_trans(u):
+                        tt = b.blocks[a]["term"]
+                        if tt["k"] == "switch" and tt["discr"]["k"] in ("copy", "move") and dest in b.slice([tt["discr"]], control=False)["locals"]:
+                            gates.append((bb, t))
+                if not ups:
+                    gates.append((bb, t))
+        if gates:
+            R.bad("C08-R13", b.path + ":whole-vector-gate", "%s @%s" % (b.path, loc(gates[0][1]["span"])), "the update of all coordinates is skipped when `%s` fails for the "
+                  "vector as a whole: one coordinate with a zero / non-finite variance estimate blocks the adaptation of every other coordinate" % gates[0][1]["callee"]["name"])
+        else:
+            R.ok("C08-R13", b.path + ":whole-vector-gate", site, "%d update kernel call(s), none behind a whole-vector finiteness test" % len(ups))
+    R.floor("C08-R13", 1)
+
+
 def run(F, R, config=None):
     r1_r3(F, R)
     r7(F, R)
@@ -673,6 +703,7 @@ def run(F, R, config=None):
     r9(F, R)
     r11(F, R)
     r12(F, R)
+    r13(F, R)
     from . import c02
     K.borrow_rule(R, lambda sub: c02.r10(F, sub), "C08-R10", "no logarithm of a product reduction in the transformation / math code: finite positive scales and "
                   "eigenvalues give a finite log-determinant (C02-R10 analysis)", only_rules={"C02-R10"})
